@@ -20,7 +20,7 @@ TraceInit == c = 1 /\ TLCSet(1, <<>>) /\ TLCSet(2, 0) /\ TLCSet(3, 0)
 
 \* what could have made an encoder fail: risky positions present in the value (priority order)
 RECURSIVE Trig(_)
-Trig(tv) == IF tv.g \in {"ptr", "iface"} THEN (IF tv.nil THEN {} ELSE Trig(tv.a[1]))
+Trig(tv) == IF tv.g \in {"ptr", "iface"} THEN (IF "cyc" \in DOMAIN tv THEN {"embedded-pointer-cycle"} ELSE {}) \cup (IF tv.nil THEN {} ELSE Trig(tv.a[1]))
             ELSE IF tv.g \in {"slice", "array"} THEN
                  (IF \E i \in 1..Len(tv.a) : IsNilPtr(tv.a[i]) THEN {"nil-pointer-in-slice"} ELSE {}) \cup UNION {Trig(tv.a[i]) : i \in 1..Len(tv.a)}
             ELSE IF tv.g = "map" THEN
